@@ -283,8 +283,11 @@ def r73(ctx, fx, et):
                 break
         get_ok = False
         val_from = None
+        # the vector indexed by the enumerate index is `args` itself or a vector built before the macro scope is entered by pushing, in order,
+        # one evaluation per element of `args` (see R7.7)
+        positional = {args_var} | set(values_vectors(body, args_var))
         for x, p in lib.hir_calls(fl[0]):
-            if x.get("k") == "mcall" and x.get("name") == "get" and lib.hpath(x["recv"]) == args_var and lib.hpath(x["args"][0]) == idx:
+            if x.get("k") == "mcall" and x.get("name") == "get" and lib.hpath(x["recv"]) in positional and lib.hpath(x["args"][0]) == idx:
                 get_ok = True
         add_ok = False
         for x, p in lib.hir_calls(fl[0], "CodegenContext::add_symbol"):
@@ -302,6 +305,109 @@ def r73(ctx, fx, et):
     em = [lib.hdesc(lib.hargs(x)[1]) for x, p in lib.hir_calls(clo.get("body", {}), "CodegenContext::emit_tokens")]
     if not (len(em) == 1 and em[0][:2] == ("f", "block")):
         ctx.finding(rid, key + "|body", "the expansion does not emit exactly the macro definition's block: %s" % em, "%s:%s" % (et.file, sc.get("ln")))
+
+
+def values_vectors(body, args_var):
+    """names of vectors filled by `for (expr, _) in args.iter() { v.push(<evaluation of expr>) }` outside any closure"""
+    out = []
+    for n in lib.hwalk(body):
+        if n.get("k") == "match" and n.get("src") == "ForLoopDesugar":
+            it = lib.hdesc(lib.strip(lib.strip(n["scrut"])["args"][0]))
+            if args_var not in repr(it) or "enumerate" in repr(it) or "rev" in repr(it) or "skip" in repr(it):
+                continue
+            for x in lib.hwalk(n):
+                if x.get("k") == "mcall" and x.get("name") == "push" and any(True for _ in lib.hir_calls(x["args"][0], "CodegenContext::evaluate_expression")):
+                    v = lib.hpath(x["recv"])
+                    if v:
+                        out.append(v)
+    return out
+
+
+def r76_77(ctx, fx, et):
+    rid6 = ctx.rule("R7.6", "the macro a MacroInvocation expands is found, on every path, by the scoped lookup from the current scope (Evaluator::get_symbol_filtered("
+                    "current_scope_nx, name, is-a-macro)): directly in the arm or through a helper all of whose success returns pass that lookup — a result "
+                    "remembered under the bare name (a cache) is not the innermost definition")
+    rid7 = ctx.rule("R7.7", "macro arguments are evaluated in the scope of the invocation: no evaluation of an argument expression happens inside the closure that runs "
+                    "in the macro's own scope (where parameter names shadow the names the arguments use)")
+    arm = token_arm(et, "MacroInvocation")
+    if arm is None:
+        ctx.fail_closed(rid6, "Token::MacroInvocation arm not found")
+        return
+    body = arm["body"]
+    key = "%s|Macro|lookup" % et.path
+    ctx.inst(rid6, key)
+    init = None
+    for n in lib.hwalk(body):
+        if n.get("k") == "let" and n["pat"].get("k") == "bind" and n["pat"].get("name") == "def" and "init" in n:
+            init = n["init"]
+            break
+    if init is None:
+        # the first let of the arm whose value is matched by `if let Some((macro_nx, def))`
+        for n in lib.hwalk(body):
+            if n.get("k") == "let" and "init" in n:
+                init = n["init"]
+                break
+    if init is None:
+        ctx.fail_closed(rid6, "the definition lookup of the MacroInvocation arm was not found")
+    else:
+        def is_lookup(p):
+            return lib.pm(p, "Evaluator::get_symbol_filtered")
+        direct = [x for x, p in lib.hir_calls(init, "Evaluator::get_symbol_filtered")]
+        ok = False
+        why = None
+        if direct:
+            a1 = lib.hdesc(lib.hargs(direct[0])[1])
+            ok = a1[:2] == ("f", "current_scope_nx")
+            why = None if ok else "the lookup does not start at current_scope_nx (%s)" % (a1,)
+        else:
+            mc = lib.MustCall(fx, is_lookup)
+            helpers = []
+            for x, p in lib.hir_calls(init):
+                g = (fx.fn(p) or fx.fn(lib.norm(p))) if p else None
+                if g is not None and g.crate == "mos_core" and g.blocks and g.kind != "closure":
+                    helpers.append(g)
+            good = [g for g in helpers if mc.holds(g)]
+            ok = bool(good)
+            if not ok:
+                why = "the definition comes from %s, which can return a symbol without performing the scoped lookup" % (
+                    ", ".join(g.path.rsplit("::", 1)[-1] for g in helpers) or "no recognisable lookup")
+        if not ok:
+            ctx.finding(rid6, key, "macro invocation: %s; a macro of the same name in a nearer scope is then ignored and the invocation expands the wrong body" % why,
+                        "%s:%s" % (et.file, arm.get("ln")))
+    key = "%s|Macro|argument-scope" % et.path
+    ctx.inst(rid7, key)
+    sc = [n for n in lib.hwalk(body) if n.get("k") in ("mcall", "call") and lib.pm(lib.hcallee(n), "CodegenContext::with_scope")]
+    if not sc:
+        ctx.fail_closed(rid7, "with_scope call of the MacroInvocation arm not found")
+        return
+    clo = lib.strip(lib.hargs(sc[0])[3])
+    inside = [x for x, p in lib.hir_calls(clo.get("body", {})) if p and (lib.pm(p, "CodegenContext::evaluate_expression") or lib.pm(p, "CodegenContext::evaluate_expression_as_i64")
+                                                                          or lib.pm(p, "CodegenContext::evaluate_expression_as_string") or lib.pm(p, "Evaluator::evaluate_expression"))]
+    if inside:
+        ctx.finding(rid7, key, "an argument expression is evaluated inside the macro's own scope: a name in the argument that equals a parameter name (of this or of "
+                    "the previous pass) refers to the parameter — `m(1, a)` with parameters (a, b) binds b to 1", "%s:%s" % (et.file, inside[0].get("ln")))
+    elif not values_vectors(body, arm_binds(arm).get("args")):
+        ctx.finding(rid7, key, "the arguments of a macro invocation are not evaluated (one evaluation per argument, in order) before the macro scope is entered",
+                    "%s:%s" % (et.file, arm.get("ln")))
+
+
+def r78(ctx, fx):
+    rid = ctx.rule("R7.8", "SymbolTable::parent answers the scope a symbol was defined in: an exported (imported) symbol has several incoming edges and the graph lists "
+                   "the newest first, so the parent is the last element of the incoming-edge iterator, not the first")
+    f = fx.fn("mos_core::codegen::symbols::SymbolTable::<S>::parent")
+    if f is None:
+        ctx.fail_closed(rid, "SymbolTable::parent not found")
+        return
+    key = "SymbolTable::parent|defining-edge"
+    ctx.inst(rid, key)
+    incoming = [x for x, p in lib.hir_calls(f.hir["body"]) if p and p.endswith("edges_directed")]
+    if not incoming:
+        ctx.not_decided("SymbolTable::parent no longer walks the incoming edges of the graph: which scope it answers for an imported symbol is not decided")
+        return
+    consumers = [x.get("name") for x in lib.hwalk(f.hir["body"]) if x.get("k") == "mcall" and x.get("name") in ("next", "last", "nth", "find", "min_by_key", "max_by_key", "next_back")]
+    if "next" in consumers or "nth" in consumers:
+        ctx.finding(rid, key, "SymbolTable::parent takes the first incoming edge: for a scope that was imported into another file this is the importing scope, so "
+                    "lookups from inside the imported scope continue in the importer (`lda bar` inside an imported block resolves to the importer's `bar`)", f.where)
 
 
 def r74(ctx, fx):
@@ -384,4 +490,6 @@ def run(ctx):
     r73(ctx, fx, et)
     r74(ctx, fx)
     r75(ctx, fx)
+    r76_77(ctx, fx, et)
+    r78(ctx, fx)
     ctx.not_decided("byte equality of (P, expand(P)) on concrete programs; `.const` substitution; import scoping and export of names; nesting depth")
